@@ -107,7 +107,7 @@ static CLD cref(const Basic &b)
 }
 
 // same tree, every leaf perturbed relatively by ~1e-13: a crude condition estimate for the complex oracle
-static CLD cref_perturbed(const Basic &b, Rng &r);
+static CLD cref_perturbed(const Basic &b, Rng &r, int imag_sign);
 
 static RCP<const Basic> complex_tree(TreeGen &g, int depth)
 {
@@ -223,9 +223,10 @@ std::string hx_run(const std::string &op, std::string &oracle)
                     if (diff > 1e-9L * mag) {
                         // distinguish ill-conditioning (branch cuts, cancellation) from a wrong formula: re-evaluate
                         // the reference at slightly perturbed leaves
-                        Rng pr(12345);
-                        CLD r2 = cref_perturbed(*e, pr);
-                        if (std::abs(r2 - r) > 1e-11L * mag)
+                        // (relative perturbations and a tiny imaginary part of either sign: branch cuts on the real axis)
+                        Rng pr(12345), pr2(12345), pr3(999);
+                        CLD r2 = cref_perturbed(*e, pr, +1), r3 = cref_perturbed(*e, pr2, -1), r4 = cref_perturbed(*e, pr3, 0);
+                        if (std::abs(r2 - r) > 1e-11L * mag || std::abs(r3 - r) > 1e-11L * mag || std::abs(r4 - r) > 1e-11L * mag)
                             stat("complex_discarded");
                         else
                             oracle = "FAIL:caccuracy:eval_complex_double=(" + tostr(z.real()) + "," + tostr(z.imag())
@@ -252,6 +253,9 @@ std::string hx_run(const std::string &op, std::string &oracle)
     std::string svp = guarded([&] { return eval_double_visitor_pattern(*e); }, vp, okvp);
     std::vector<std::string> spec;
     collect_special(*e, [](const Basic &b) { return eval_double(b); }, spec);
+    // operand values as the single-dispatch evaluator computes them (they differ from the visitor's wherever the
+    // two evaluators disagree, e.g. finding D17)
+    collect_special(*e, [](const Basic &b) { return eval_double_single_dispatch(b); }, spec);
     std::string out = "v=" + sv + ";sd=" + ssd + ";sp=" + join(spec, ",") + ";o=" + odump(*e);
     if (svp != sv)
         oracle = "FAIL:vp_agree:eval_double_visitor_pattern=" + svp + " eval_double=" + sv;
@@ -288,15 +292,16 @@ std::string hx_run(const std::string &op, std::string &oracle)
     return out;
 }
 
-static CLD cref_perturbed(const Basic &b, Rng &r)
+static CLD cref_perturbed(const Basic &b, Rng &r, int imag_sign)
 {
     // re-evaluate after multiplying every numeric leaf by (1 + δ), |δ| ≤ 1e-13, via a rebuilt reference walk
     struct W {
         Rng &r;
+        int isg;
         CLD pert(CLD z)
         {
             LD d = ((LD)r.below(2001) - 1000) * 1e-16L;
-            return z * CLD(1 + d, 0);
+            return z * CLD(1 + d, (LD)isg * 1e-13L);
         }
         CLD go(const Basic &b)
         {
@@ -340,6 +345,6 @@ static CLD cref_perturbed(const Basic &b, Rng &r)
                 }
             }
         }
-    } w{r};
+    } w{r, imag_sign};
     return w.go(b);
 }
